@@ -525,7 +525,7 @@ def run(tier):
         canary(rc, first(rc, lambda e: e["op"] == "tab" and e["name"] == "T3" and e["x"] == 77), flip("v", 2), "table-T3")
         canary(rc, first(rc, lambda e: e["op"] == "tab" and e["name"] == "Si" and e["x"] == 9), flip("v", 0), "table-Si")
         canary(rc, first(rc, lambda e: e["op"] == "oblk"), flip("ct", 15), "spec-differs-from-openssl")
-        src = first(rm, lambda e: e["op"] == "m.call" and e["err"] == 0 and len(e["out"]) >= 16 and order[e["grp"]][0]["mode"] == "ctr")
+        src = first(rm, lambda e: e["op"] == "m.call" and e["err"] == 0 and len(e["out"]) >= 16)
         canary(rm, src, flip("out", 3), "mode-call-output", order[src["grp"]])
         src = first(rm, lambda e: e["op"] == "m.ossl" and len(e["ossl"]) >= 16)
         canary(rm, src, flip("ossl", 1), "spec-differs-from-openssl", order[src["grp"]])
